@@ -205,8 +205,9 @@ def run(ctx):
     check_cell_collectors(ctx, db)
     check_flatten(ctx, db)
     # a repetition kept attached under a reference is mapped by the placement's linear part: exact identities (C11's obligation, shared)
-    from . import C11
+    from . import C11, C10
     C11.check_transform_algebra(ctx, db)
+    C10.check_signs(ctx, db)   # the element transforms the collectors apply: width/offset sign and scale policy of the two path kinds
 
 
 MANIFEST = dict(
